@@ -333,6 +333,9 @@ class _Timeout(BaseException):
 
 
 class time_limit:
+    """Limit on the CPU time of this process (ITIMER_PROF): independent of how loaded the machine is; a blocked (not spinning)
+    implementation is caught by the wall-clock watchdog every job runs under."""
+
     def __init__(self, seconds):
         self.seconds = seconds
 
@@ -341,16 +344,14 @@ class time_limit:
 
         def handler(signum, frame):
             raise _Timeout()
-        self.old = signal.signal(signal.SIGALRM, handler)
-        self.remaining = signal.alarm(self.seconds)
+        self.old = signal.signal(signal.SIGPROF, handler)
+        signal.setitimer(signal.ITIMER_PROF, self.seconds)
         return self
 
     def __exit__(self, *exc):
         import signal
-        signal.alarm(0)
-        signal.signal(signal.SIGALRM, self.old)
-        if self.remaining:
-            signal.alarm(max(1, self.remaining - self.seconds))
+        signal.setitimer(signal.ITIMER_PROF, 0)
+        signal.signal(signal.SIGPROF, self.old)
         return False
 
 
@@ -381,7 +382,7 @@ def job_long_tokens(n):
                 check_text(t, acc)
         except _Timeout:
             acc.violation('superlinear-or-hang', {'kind': 'text', 'text': t if len(t) < 400 else t[:200] + '...(%d characters)' % len(t)},
-                          'processing a %d-character document did not finish in 20 s (token of %d repeated characters)' % (len(t), n))
+                          'processing a %d-character document did not finish in 20 s of CPU time (token of %d repeated characters)' % (len(t), n))
     acc.sample({'slot': 'long-token', 'text': (t or '')[:120]})
     return acc
 
